@@ -177,7 +177,8 @@ def run_mixed(ti, tj, a, b, desc_on):
 
     (ta, ca), (tb, cb) = CAND[ti], CAND[tj]
     DA = RecordDescriptor("test/json", [(ta, "f"), ("string", "g")])
-    DB = RecordDescriptor("test/other", [(tb, "f"), ("string", "g")])
+    # the second type carries the SAME type name when the field types differ (two layouts of one record type, interleaved A B A)
+    DB = RecordDescriptor("test/json" if ta != tb else "test/other", [(tb, "f"), ("string", "g")])
     recs = [DA(ca[a], "first"), DB(cb[b], "second"), DA(None, "third")]
     with tempdir() as tmp:
         path = os.path.join(tmp, "x.json")
